@@ -2,7 +2,7 @@
 import itertools, json, os, re
 from . import core
 
-SECTIONS = ["Item"]
+SECTIONS = ["Item", "Stages"]
 LEVEL = "proof"
 RULE = ("(i) exhaustive small scope: every ordered tree shape up to N nodes x every status assignment (8^n) with a URL pattern per tree, "
         "through CheckConsistency, GetMaxDepth, depths, GetNodesAtLevel, CompleteAndCheck, DedupeItems; (ii) pipeline-shaped operation "
